@@ -79,6 +79,16 @@ E2_ROLES = {
 }
 
 
+def _volume_reads(ev):
+    """Trace indices of the statements the compared volume value was read by."""
+    v = ev.d['val']
+    while v.k == 'not':
+        v = v.a[0]
+    if v.k != 'cmp':
+        return []
+    return sorted({x.a[0] for x in values_in(v) if x.k == 'col'})
+
+
 def _volume_test(ev):
     """If TEST compares volume() with self.size_limit: set of orderings (vol ? limit) under which the assumed branch is taken."""
     v = ev.d['val']
@@ -172,11 +182,20 @@ def e2(ctx):
                 elif sub == 'lazy-expired':
                     pass   # predicate verified by X1 (removal role)
                 elif sub == 'lazy-size' or role == 'size':
-                    vt = [x for x in (_volume_test(e) for e in before if e.kind == 'TEST') if x is not None]
+                    vts = [(e, _volume_test(e)) for e in before if e.kind == 'TEST']
+                    vts = [(e, x) for e, x in vts if x is not None]
+                    vt = [x for _, x in vts]
                     if not vt:
                         ok, why = False, 'size eviction is not preceded by a comparison of volume() with size_limit'
                     else:
                         allowed = vt[-1]
+                        reads = _volume_reads(vts[-1][0])
+                        writes = [e.seq for e in before if e.kind == 'SQL' and _is_row_write(e)
+                                  and (e.d['stmt'].table or '').lower() == 'cache' and e.fn is ev.fn]
+                        if reads and writes and min(reads) < max(writes):
+                            ok, why = False, 'the volume compared with size_limit was measured BEFORE rows were ' \
+                                             'removed in this call (stale): eviction can run although the cache is ' \
+                                             'already below its limit'
                         if role == 'size':
                             if allowed != {'>'}:
                                 ok, why = False, 'cull() evicts when volume %s size_limit; it must continue only ' \
@@ -425,6 +444,27 @@ def e5(ctx):
             if not good:
                 ok = False
                 wit = fmt_trace(p.trace)
+        if name == 'incr':
+            # re-storing a value refreshes store_time (least-recently-stored order)
+            okst, nst, witst = True, 0, None
+            for p in ctx.paths(f, 'default'):
+                for e in sql_events(p.trace, 'update', 'Cache'):
+                    st = e.d['stmt']
+                    cols = [c for c, _ in st.assigns]
+                    if 'value' in cols:
+                        nst += 1
+                        params = e.d.get('params')
+                        good = False
+                        if 'store_time' in cols and params is not None and not isinstance(params, V):
+                            for sl, pv in zip(st.slots(), params):
+                                if sl[0] == 'assign' and sl[1] == 'store_time' and pv.k == 'now':
+                                    good = True
+                        if not good:
+                            okst, witst = False, fmt_trace(p.trace)
+            obs.append(Ob('E5', 'Cache.incr/store-time-refresh', okst and nst > 0,
+                          'incr rewrites the value without setting store_time to now: under least-recently-stored the '
+                          'counter keeps its creation time and is evicted before items stored earlier than its latest '
+                          'write', f.loc(), witst))
         obs.append(Ob('E5', 'Cache.%s/policy-refresh' % name, ok and n > 0,
                       'a successful %s under an LRU/LFU policy does not refresh the row\'s access column inside the '
                       'transaction: eviction order ignores this use' % name, f.loc(), wit))
